@@ -31,8 +31,8 @@ TIERS = {
     "C07": {"quick": (700, 110), "thorough": (30000, 1200)},
     "C08": {"quick": (700, 110), "thorough": (30000, 1200)},
     "C09": {"quick": (900, 100), "thorough": (40000, 1200)},
-    "C13": {"quick": (150, 120), "thorough": (6000, 1500)},
-    "C14": {"quick": (120, 120), "thorough": (5000, 1500)},
+    "C13": {"quick": (90, 100), "thorough": (6000, 1500)},
+    "C14": {"quick": (50, 100), "thorough": (5000, 1500)},
     "C15": {"quick": (160, 120), "thorough": (6000, 1500)},
     "C20": {"quick": (60, 130), "thorough": (2500, 1500)},
 }
